@@ -43,6 +43,7 @@ MANIFEST = {
 }
 
 REG = [1, 2, 4, 12]
+_LEAP_CORPUS = [2000, 2100, 1900, 2020, 2400]
 AGG = ["mean", "sum", "prod", "first", "last", "min", "max"]
 AGG_K = ["AggMean", "AggSum", "AggProd", "AggFirst", "AggLast", "AggMin", "AggMax"]
 DIS = ["flat", "first", "middle", "last"]
@@ -217,6 +218,8 @@ def falsify(ctx, hints):
         spec = sc.rand_series_spec(rng, freq=fs, nv=nv, maxlen=length, allow_empty=False, p_nan=0.08)
         if fs == 365:
             spec["start"] = dt.date(rng.randint(1999, 2024), rng.randint(1, 12), rng.randint(1, 28)).toordinal()
+            if it < len(_LEAP_CORPUS):          # calendar boundary corpus runs first: centurial and ordinary leap years
+                spec["start"] = dt.date(_LEAP_CORPUS[it], 1, rng.randint(5, 25)).toordinal(); length = max(length, 100)
             spec["rows"] = [[(float("nan") if rng.random() < 0.03 else rng.randint(-40, 40) / 4.0) for _ in range(nv)] for _ in range(length)]
             spec["rows"][0][0] = 1.0; spec["rows"][-1][0] = 2.0
         x = sc.mk_series(spec)
@@ -261,6 +264,29 @@ def falsify(ctx, hints):
                 y = ir.aggregate(x, _freq_enum(ft), method="sum", select=sel)
                 y0 = ir.aggregate(x, _freq_enum(ft), method="first", select=[sel[0]])
                 f0 = ir.aggregate(x, _freq_enum(ft), method="sum", select=None)
+            if factor and factor >= 2:
+                # select picks calendar positions inside the low period, THEN missing values are discarded
+                for name in ("first", "sum", "last"):
+                    for discard in (False, True):
+                        y = ir.aggregate(x, _freq_enum(ft), method=name, select=sel, discard_missing=discard)
+                        bad = False
+                        for (yy_, seg) in lows:
+                            lp = D.Period.from_year_segment(_freq_enum(ft), yy_, seg)
+                            mem = _members(fs, ft, yy_, seg)
+                            got = y.get_data(lp)[0]
+                            for c in range(nv):
+                                col = [vals[h][c] if h in vals else float("nan") for h in mem]
+                                want = _np_method(name, [col[i] for i in sel], discard)
+                                if not _close(got[c], want, 1e-9):
+                                    add(f"select:{name}" + (":discard" if discard else ""),
+                                        f"aggregate {name} with select={sel}, discard_missing={discard} of {lp} is not the method applied to the "
+                                        "selected calendar positions of the period",
+                                        {**full, "select": sel, "low_period": str(lp), "variant": c}, float(got[c]), want,
+                                        f"irispie.aggregate(x, {ft}, method='{name}', select={sel}, discard_missing={discard})")
+                                    bad = True
+                                    break
+                            if bad:
+                                break
         except Exception as e:  # noqa
             add("aggregate:select:raises", f"aggregate(select=<list of positions>) raises {type(e).__name__}: {e}"[:200],
                 {**inp, "select": sel}, repr(e), "the method applied to the selected positions",
@@ -268,6 +294,8 @@ def falsify(ctx, hints):
         # 2./3. placement and round trips (coarse -> fine -> coarse)
         try:
             lo_spec = sc.rand_series_spec(rng, freq=ft, nv=nv, maxlen=8, allow_empty=False, p_nan=0.1)
+            if it < len(_LEAP_CORPUS):
+                lo_spec["start"] = _LEAP_CORPUS[it] * ft
             lo = sc.mk_series(lo_spec)
             for fh in [f for f in REG + [365] if f > ft]:
                 if fh == 365 and len(lo_spec["rows"]) > 3:      # keep daily spans short (speed)
@@ -305,6 +333,8 @@ def falsify(ctx, hints):
         try:
             lo_spec = sc.rand_series_spec(rng, freq=rng.choice([1, 4]), nv=1, maxlen=7, allow_empty=False, p_nan=0.0, positive=True)
             lo_spec["rows"] = [[abs(v[0]) + 1.0] for v in lo_spec["rows"]]
+            if len(lo_spec["rows"]) >= 4 and rng.random() < 0.5:
+                lo_spec["rows"][rng.randint(1, len(lo_spec["rows"]) - 2)] = [float("nan")]       # interior gap
             if len(lo_spec["rows"]) >= 2:
                 lo = sc.mk_series(lo_spec)
                 fl = lo_spec["freq"]
@@ -316,19 +346,22 @@ def falsify(ctx, hints):
                 nw = fh // fl; nl = len(lo_spec["rows"])
                 low = np.array([r[0] for r in lo_spec["rows"]])
                 vec = {"sum": [1] * nw, "mean": [1 / nw] * nw, "first": [1] + [0] * (nw - 1), "last": [0] * (nw - 1) + [1]}[aggn]
-                Aagg = np.zeros((nl, nl * nw))
-                for i in range(nl):
-                    Aagg[i, i * nw:(i + 1) * nw] = vec
+                fin = np.where(np.isfinite(low))[0]
+                Aagg = np.zeros((len(fin), nl * nw))
+                for r_, i in enumerate(fin):
+                    Aagg[r_, i * nw:(i + 1) * nw] = vec
+                low_all = low; low = low[fin]
                 ainp = {"series": lo_spec, "target": fh, "model": [form, aggn]}
                 if xh.shape[0] != nl * nw or not _close(Aagg @ xh, low, 1e-7):
                     add(f"arip:constraints:{form}:{aggn}", "arip output does not satisfy its aggregation constraints", ainp,
                         (Aagg @ xh).tolist() if xh.shape[0] == nl * nw else list(xh.shape), low.tolist())
                 else:
+                    dist = int(fin[-1] - fin[0])      # periods between the first and the last observation
                     if form == "rate":
-                        rho = float((low[-1] / low[0]) ** (1 / (nl - 1))) ** (fl / fh); const = 0.0
+                        rho = float((low[-1] / low[0]) ** (1 / dist)) ** (fl / fh); const = 0.0
                         sig = rho ** np.arange(nl * nw)
                     else:
-                        rho = 1.0; const = float((low[-1] - low[0]) / (nl - 1)) * (fl / fh); sig = np.ones(nl * nw)
+                        rho = 1.0; const = float((low[-1] - low[0]) / dist) * (fl / fh); sig = np.ones(nl * nw)
                     K = np.zeros((nl * nw - 1, nl * nw)); cc = np.zeros(nl * nw - 1)
                     for i in range(nl * nw - 1):
                         K[i, i + 1] = 1 / sig[i + 1]; K[i, i] = -rho / sig[i + 1]; cc[i] = const / sig[i + 1]
